@@ -181,3 +181,8 @@ ENTRIES += [
     B('reply-parse-lstrips-line', 'wpull/protocol/ftp/request.py', "        for line in data.splitlines(False):\n", "        for line in data.splitlines(False):\n            line = line.lstrip()\n", 'C17-D3'),
     N('reply-parse-splitlines-default', 'wpull/protocol/ftp/request.py', "        for line in data.splitlines(False):", "        for line in data.splitlines():"),
 ]
+
+ENTRIES += [
+    B('readline-overrun-skipped', 'wpull/protocol/ftp/stream.py', "            except ValueError as error:\n                raise ProtocolError(\n                    'Invalid reply: {0}'.format(error)) from error\n",
+      "            except ValueError as error:\n                if reply.text is None:\n                    raise ProtocolError(\n                        'Invalid reply: {0}'.format(error)) from error\n                continue\n", 'C17-D3'),
+]
